@@ -205,6 +205,13 @@ def attr_key(a, tensor_key_fn=None):
     elif a.type in (T.FLOATS,):
         import struct
         vk = tuple(struct.pack("<f", x) if x == x else "nan" for x in v)
+    elif a.type == T.STRING and isinstance(v, (bytes, bytearray)):
+        # a byte blob that is valid UTF-8 IS the text it encodes at this level (the reader hands it back as str; the
+        # oracle IsoCheck.attr checks exactly that rule on the real objects); an undecodable blob stays bytes
+        try:
+            vk = repr(bytes(v).decode("utf-8"))
+        except UnicodeDecodeError:
+            vk = repr(bytes(v))
     else:
         vk = repr(v)
     return ("attr", int(a.type), vk, doc)
@@ -1084,6 +1091,11 @@ def mk_attr(env: Env, a):
             return ir.AttrFloat32(nm, float(a["v"]), doc_string=doc)
         if k == "str":
             return ir.AttrString(nm, a["v"], doc_string=doc)
+        if k == "bytes":       # STRING attribute holding an opaque byte blob (custom ops): kept as bytes by serde
+            return ir.Attr(nm, ir.AttributeType.STRING, bytes.fromhex(a["hex"]), doc_string=doc)
+        if k == "strsb":       # STRINGS with bytes elements ({"hex": ..}) among str elements: the leaf serializer rejects bytes
+            return ir.Attr(nm, ir.AttributeType.STRINGS,
+                           [bytes.fromhex(x["hex"]) if isinstance(x, dict) else x for x in a["v"]], doc_string=doc)
         if k == "ints":
             return ir.AttrInt64s(nm, a["v"], doc_string=doc)
         if k == "floats":
@@ -1549,8 +1561,12 @@ class Gen:
             a = {"k": "int", "name": nm, "v": r.randrange(-3, 10)}
         elif q < 0.35:
             a = {"k": "float", "name": nm, "v": r.choice([0.0, 0.5, -1.25, 3.0, 1e30, float("inf")])}
-        elif q < 0.5:
+        elif q < 0.44:
             a = {"k": "str", "name": nm, "v": r.choice(["s", "", "héllo"])}
+        elif q < 0.495:    # byte blobs: invalid UTF-8 (stay bytes), valid UTF-8 / ASCII / empty (read back as str)
+            a = {"k": "bytes", "name": nm, "hex": r.choice(["00fffe8041c3", "ff", "c328", "68c3a96c6c6f", "6162", "", "eda080"])}
+        elif q < 0.5:
+            a = {"k": "strsb", "name": nm, "v": r.choice([[{"hex": "fffe"}], ["x", {"hex": "6162"}], ["x", {"hex": "c328"}, "yy"]])}
         elif q < 0.6:
             a = {"k": "ints", "name": nm, "v": [r.randrange(5) for _ in range(r.randrange(0, 4))]}
         elif q < 0.68:
@@ -2700,6 +2716,18 @@ class IsoCheck:
         elif a.type in (T.INTS, T.STRINGS):
             if list(x) != list(y):
                 self.err("attr", f"{w}: {x!r} vs {y!r}")
+        elif a.type == T.STRING and isinstance(x, (bytes, bytearray)):
+            # a byte blob comes back as the SAME bytes, or - when it is valid UTF-8 - as the str it decodes to
+            # (text canonicalisation of the reader; the np table of the model carries the same normalisation)
+            try:
+                txt = bytes(x).decode("utf-8")
+            except UnicodeDecodeError:
+                txt = None
+            if not ((isinstance(y, (bytes, bytearray)) and bytes(y) == bytes(x) and txt is None) or (isinstance(y, str) and txt is not None and y == txt)):
+                self.err("attr", f"{w}: {x!r} vs {y!r} (type {type(y).__name__})")
+        elif a.type == T.STRING:
+            if type(x) is not type(y) or x != y:
+                self.err("attr", f"{w}: {x!r} vs {y!r} (type {type(y).__name__})")
         elif x != y:
             self.err("attr", f"{w}: {x!r} vs {y!r}")
 
